@@ -18,7 +18,7 @@ EXPLANATION = (
     "The argument re-packing of a variadic recur is evaluated on representative argument tuples (nil / empty / non-empty rest); "
     "partial recomputes the apply_to of the partial from the remaining arities; a Var is called through its current value."
 )
-DECIDES = "laziness of apply on the variadic path, recur-as-loop (constant stack), rest-argument re-packing on recur judged by what the arity binds, arity-dispatch shape, partial/Var call forwarding, apply through a Var, trampolining of coroutine functions, per-arity variadic flag of recur points"
+DECIDES = "laziness of apply on the variadic path, recur-as-loop (constant stack), rest-argument re-packing on recur judged by what the arity binds, arity-dispatch shape, partial/Var call forwarding, apply through a Var, trampolining of coroutine functions, per-arity variadic flag of recur points, max_fixed_arity covers the variadic arity's fixed parameters (analyzer computation, origin of every fn decorator's value)"
 DECLINED = "the full binding table signature x call shape x argument count (a function of values)"
 TRUSTED = ["Python *args star-expansion realises its operand", "concat() is lazy (C06)"]
 ASSUMPTIONS = []
@@ -436,3 +436,79 @@ SELFTEST = [
      "old": "num_missing_args", "new": "missing"},
 ]
 SELFTEST = [c for c in SELFTEST if "rename tail variable" not in c["name"]]
+
+
+ANA = "src/basilisp/lang/compiler/analyzer.py"
+
+
+def _arg_origins(tree, fn, expr, depth=3):
+    """The expressions a value can come from: locals expanded to their single definition; a bare
+    parameter of a private module-level function followed to the argument every caller passes."""
+    e = P.expand_locals(fn, expr)
+    params = [a.arg for a in fn.args.posonlyargs + fn.args.args + fn.args.kwonlyargs]
+    if isinstance(e, ast.Name) and e.id in params and depth > 0:
+        out = []
+        callers = [c for c in ast.walk(tree) if isinstance(c, ast.Call) and isinstance(c.func, ast.Name) and c.func.id == fn.name]
+        if not callers:
+            return [(fn, e)]
+        for c in callers:
+            val = next((k.value for k in c.keywords if k.arg == e.id), None)
+            pos = [a.arg for a in fn.args.posonlyargs + fn.args.args]
+            if val is None and e.id in pos and pos.index(e.id) < len(c.args):
+                val = c.args[pos.index(e.id)]
+            cf = P.enclosing_func(c)
+            if val is None or cf is None:
+                out.append((fn, e))  # the default, or a call we cannot see through
+            else:
+                out.extend(_arg_origins(tree, cf, val, depth - 1))
+        return out
+    return [(fn, e)]
+
+
+@rule("C08.R6", floor=4)
+def r6_max_fixed_arity_covers_the_variadic_arity(ctx):
+    """`apply` peels leading elements of its last argument into positional arguments until the call has
+    `max_fixed_arity` of them, then hands the rest over lazily; the variadic arity binds its fixed
+    parameters from those.  So the number recorded on a function must be the maximum over *all* its
+    arities, the variadic one included (`([a]) ([a b c & r])` records 3): the analyzer computes it as
+    max(arity.fixed_arity for arity in arities) without filtering, and every fn decorator the
+    generator emits takes it from the node (`node.max_fixed_arity`), never from a table of the fixed
+    arities only."""
+    tree = ctx.py(ANA)
+    n = 0
+    for c in ast.walk(tree):
+        if not isinstance(c, ast.Call):
+            continue
+        for k in c.keywords:
+            if k.arg != "max_fixed_arity":
+                continue
+            f = P.enclosing_func(c)
+            if f is None:
+                continue
+            e = P.expand_locals(f, k.value)
+            n += 1
+            gen = e.args[0] if isinstance(e, ast.Call) and P.un(e.func) == "max" and e.args and isinstance(e.args[0], (ast.GeneratorExp, ast.ListComp)) else None
+            ok = gen is not None and len(gen.generators) == 1 and not gen.generators[0].ifs and isinstance(gen.elt, ast.Attribute) and gen.elt.attr == "fixed_arity" \
+                and P.un(gen.generators[0].iter) in ("arities", "node.arities")
+            ctx.ob("C08.R6", f"{ANA}::{f.name}::max_fixed_arity is the maximum fixed_arity over all arities", ANA, c.lineno, ok,
+                   "" if ok else f"max_fixed_arity is computed as `{P.un(e)[:100]}`: when the variadic arity has more fixed parameters than every fixed arity, apply stops peeling too early and the variadic arity's fixed parameters are bound to the wrapped rest",
+                   witness="((fn ([a] 1) ([a b c & r] [a b c r])) ... via (apply f 1 2 [3 4]) must bind c = 3, r = (4)")
+    if n == 0:
+        raise AnalysisError("no max_fixed_arity computation found in the analyzer")
+    g = ctx.py(GEN)
+    dec = ctx.fn(GEN, "__fn_decorator")
+    sites = [c for c in ast.walk(g) if isinstance(c, ast.Call) and isinstance(c.func, ast.Name) and c.func.id == dec.name]
+    if not sites:
+        raise AnalysisError("__fn_decorator is never called")
+    for c in sites:
+        f = P.enclosing_func(c)
+        val = next((k.value for k in c.keywords if k.arg == "max_fixed_arity"), None)
+        if val is None:
+            pos = [a.arg for a in dec.args.posonlyargs + dec.args.args]
+            if "max_fixed_arity" in pos and pos.index("max_fixed_arity") < len(c.args):
+                val = c.args[pos.index("max_fixed_arity")]
+        origins = _arg_origins(g, f, val) if val is not None else []
+        ok = bool(origins) and all(isinstance(o, ast.Attribute) and o.attr == "max_fixed_arity" for _f, o in origins)
+        ctx.ob("C08.R6", f"{GEN}::{f.name}::the fn decorator records the node's max_fixed_arity", GEN, c.lineno, ok,
+               "" if ok else f"the decorator's max_fixed_arity comes from {[P.un(o)[:60] for _f, o in origins] or 'nowhere (default None)'} instead of the fn node: a table of the non-variadic arities misses the fixed parameters of the variadic arity",
+               witness="(apply (fn ([a] 1) ([a b c & r] [a b c r])) 1 2 [3 4]) must be [1 2 3 (4)]")
